@@ -4,9 +4,9 @@ Line-protocol driver for the units model (C09).  One op per modelled function.
 JSON encodings (rationals as `[num, den]` or a bare integer):
   Quantity   {"m": rat, "f": rat, "d": [7 ints]}
   PyVal      {"n": rat} | Quantity             ("u": null stands for new_unit=None)
-  Val        PyVal | {"s": 1} (a str) | {"l": [Val…]} | {"k": [[key, Val]…]}
+  Val        PyVal | {"s": 1} (a str) | {"l": [Val…]} | {"k": [[key, Val]…]} | {"nd": [rat…]} (plain ndarray)
   Flat       PyVal | {"l": [PyVal…]} | {"k": [[key, PyVal]…]}
-  RegEntry   {"n": rat} | {"m": rat, "dimy": [[u_symbol, rat, [7 ints], exponent]…]}
+  RegEntry   {"n": rat} | {"m": rat, "dimy": [[symbol, rat, [7 ints], exponent]…]}
 Output: JSON text with rationals as strings "n/d"; exceptions by class name.
 -/
 import ChemModel.Basic.Proto
@@ -73,6 +73,9 @@ def asPair (j : Json) : Except String (String × Json) :=
   | _ => .error "!bad-arg:pair"
 
 partial def asVal (j : Json) : Except String (Val Q) :=
+  match j.getObjVal? "nd" with
+  | .ok a => do pure (.ndarray (← (← asArr a).mapM asRat))
+  | .error _ =>
   match j.getObjVal? "s", j.getObjVal? "l", j.getObjVal? "k" with
   | .ok _, _, _ => pure .str
   | _, .ok l, _ => do pure (.list (← (← asArr l).mapM asVal))
@@ -117,7 +120,7 @@ def showHuman : HumanEntry Q → String
 def showRegEntry : RegEntry Q → String
   | .num x => "{\"n\":" ++ sr x ++ "}"
   | .q m dy => "{\"m\":" ++ sr m ++ ",\"dimy\":[" ++ ",".intercalate (dy.map fun p =>
-      "[" ++ jstr p.1.uSymbol ++ "," ++ sr p.1.unit.factor ++ "," ++ showDims p.1.unit.dims ++ "," ++ toString p.2 ++ "]") ++ "]}"
+      "[" ++ jstr p.1.symbol ++ "," ++ sr p.1.unit.factor ++ "," ++ showDims p.1.unit.dims ++ "," ++ toString p.2 ++ "]") ++ "]}"
 
 def keyName (i : Nat) : String := (ChemModel.Gen.Units.registryKeys[i]?).getD "?"
 
